@@ -91,7 +91,10 @@ class C04(Prop):
         "TerminationToken, last, on every output port (Net_terminates). The contract is proved for the modelled "
         "Transformer/ConditionalStep rounds (_get_inputs, _group_by_tag, _reduce_statuses, _get_status, terminate); "
         "GatherStep's termination for every arrival list is proved from the C01 model (C04_contract_gather); "
-        "CombinatorStep/LoopCombinatorStep/ExecuteStep/Schedule/Transfer are only assumed to terminate. FAILED is absorbing "
+        "for networks mixing sequential and merge-style steps (log machines) no-deadlock / stuck-implies-terminated / "
+        "no-read-past-a-termination-token hold for every execution (C04_mixed_net_partial), instantiated with no "
+        "hypothesis for ScatterStep, one-input Transformer and GatherStep; CombinatorStep/LoopCombinatorStep/LoopOutputStep/"
+        "ExecuteStep/Schedule/Transfer are only assumed to honour the contracts. FAILED is absorbing "
         "through _reduce_statuses/_get_status when no CANCELLED is present. The executor's closing logic is a 2-field "
         "state machine: after _cancel or close() no step is left unterminated and a FAILED/CANCELLED status makes run() "
         "raise (this holds for the repaired _cancel; the pre-fix behaviour is kept as C04_prefix_cancel_leaves_steps_refuted). "
